@@ -15,10 +15,11 @@ int64_t CDNS::Timestamp::get_time_offset(const Timestamp& reference, uint64_t ti
     if (ticks_per_second == 0)
         throw std::runtime_error("Ticks per second resolution is zero!");
 
-    int64_t ticks = (m_secs * ticks_per_second) + m_ticks;
-    int64_t ref_ticks = (reference.m_secs * ticks_per_second) + reference.m_ticks;
+    uint64_t ticks = (m_secs * ticks_per_second) + m_ticks;
+    uint64_t ref_ticks = (reference.m_secs * ticks_per_second) + reference.m_ticks;
 
-    return ticks - ref_ticks;
+    // Subtract as unsigned (well defined for any operands), the result is the signed difference
+    return static_cast<int64_t>(ticks - ref_ticks);
 }
 
 void CDNS::Timestamp::add_time_offset(int64_t offset, uint64_t ticks_per_second)
@@ -26,12 +27,21 @@ void CDNS::Timestamp::add_time_offset(int64_t offset, uint64_t ticks_per_second)
     if (ticks_per_second == 0)
         throw std::runtime_error("Ticks per second resolution is zero!");
 
-    int64_t ticks = (m_secs * ticks_per_second) + m_ticks;
+    uint64_t ticks = (m_secs * ticks_per_second) + m_ticks;
 
-    if (-1 * offset > ticks)
-        throw std::runtime_error("Adding offset to Timestamp would create invalid Timestamp!");
+    if (offset < 0) {
+        // Magnitude of the offset, computed without negating a signed value (INT64_MIN)
+        uint64_t back = ~static_cast<uint64_t>(offset) + 1;
+        if (back > ticks)
+            throw std::runtime_error("Adding offset to Timestamp would create invalid Timestamp!");
+        ticks -= back;
+    }
+    else {
+        if (static_cast<uint64_t>(offset) > UINT64_MAX - ticks)
+            throw std::runtime_error("Adding offset to Timestamp would create invalid Timestamp!");
+        ticks += static_cast<uint64_t>(offset);
+    }
 
-    ticks += offset;
     m_secs = ticks / ticks_per_second;
     m_ticks = ticks % ticks_per_second;
 }
